@@ -248,6 +248,92 @@ def c_opt_map(eng, st, fr, f, args, site):
     return outs
 
 
+@contract(r"^(std|core)::option::Option::<T>::(is_some_and|is_none_or)$|^(std|core)::result::Result::<T, E>::(is_ok_and|is_err_and)$")
+def c_is_some_and(eng, st, fr, f, args, site):
+    """is_some_and / is_none_or / is_ok_and / is_err_and: the predicate is analysed on the payload of the variant."""
+    e, _ = as_enum(eng, st, args[0])
+    if e is None:
+        return None
+    name = f["path"].split("::")[-1]
+    hot = {"is_some_and": 1, "is_none_or": 1, "is_ok_and": 0, "is_err_and": 1}[name]
+    other = TRUE if name == "is_none_or" else FALSE
+    outs = []
+    for ns, vi, fs in split_variants(eng, st, e, None):
+        if vi != hot:
+            outs.append((ns, other))
+        else:
+            rs = call_closure(eng, ns, fr, args[1], [fs[0]], site)
+            if rs is None:
+                return None
+            outs.extend(rs)
+    return outs
+
+
+@contract(r"^(std|core)::option::Option::<T>::map_or_else$")
+def c_opt_map_or_else(eng, st, fr, f, args, site):
+    e, _ = as_enum(eng, st, args[0])
+    if e is None:
+        return None
+    outs = []
+    for ns, vi, fs in split_variants(eng, st, e, None):
+        rs = call_closure(eng, ns, fr, args[1], [], site) if vi == 0 else call_closure(eng, ns, fr, args[2], [fs[0]], site)
+        if rs is None:
+            return None
+        outs.extend(rs)
+    return outs
+
+
+@contract(r"^(std|core)::option::Option::<T>::(filter)$")
+def c_opt_filter(eng, st, fr, f, args, site):
+    e, _ = as_enum(eng, st, args[0])
+    rt = ret_ty(eng, site)
+    if e is None or rt is None:
+        return None
+    outs = []
+    for ns, vi, fs in split_variants(eng, st, e, None):
+        if vi == 0:
+            outs.append((ns, Enum(rt, ((0, ()),), "opt")))
+            continue
+        loc = "obj:filt#%d" % eng._hv()
+        ns.locs[loc] = fs[0]
+        rs = call_closure(eng, ns, fr, args[1], [Ref(loc, (), False)], site)
+        if rs is None:
+            return None
+        for s1, v in rs:
+            if not isinstance(v, Bool):
+                return None
+            for truth in (True, False):
+                s2 = s1.fork()
+                try:
+                    eng.assume(s2, v.cond, truth)
+                except Dead:
+                    continue
+                outs.append((s2, Enum(rt, ((1, (fs[0],)),), "opt") if truth else Enum(rt, ((0, ()),), "opt")))
+    return outs
+
+
+@contract(r"^(std|core)::option::Option::<T>::zip$")
+def c_opt_zip(eng, st, fr, f, args, site):
+    a, _ = as_enum(eng, st, args[0])
+    rt = ret_ty(eng, site)
+    if a is None or rt is None:
+        return None
+    outs = []
+    for ns, vi, fs in split_variants(eng, st, a, None):
+        if vi == 0:
+            outs.append((ns, Enum(rt, ((0, ()),), "opt")))
+            continue
+        b, _ = as_enum(eng, ns, args[1])
+        if b is None:
+            return None
+        for ns2, vj, gs in split_variants(eng, ns, b, None):
+            if vj == 0:
+                outs.append((ns2, Enum(rt, ((0, ()),), "opt")))
+            else:
+                outs.append((ns2, Enum(rt, ((1, (Struct(None, (fs[0], gs[0])),)),), "opt")))
+    return outs
+
+
 @contract(r"^(std|core)::option::Option::<T>::map_or$")
 def c_opt_map_or(eng, st, fr, f, args, site):
     e, _ = as_enum(eng, st, args[0])
@@ -476,6 +562,23 @@ def default_of(eng, ti):
 def c_from_bool(eng, st, fr, f, args, site):
     if isinstance(args[0], Bool):
         w = eng.T.int_info(ret_ty(eng, site))[0]
+        c = eng.simplify_cond(st, args[0].cond)
+        while c[0] == "not":
+            c = c[1]
+        if c[0] == "sym" and "#" not in str(c[1]):
+            # a named input flag used arithmetically (`usize::from(flag) * N`): decide it, as a branch on it would
+            outs = []
+            for truth in (True, False):
+                ns = st.fork()
+                try:
+                    ki = eng.assume(ns, args[0].cond, truth)
+                except Dead:
+                    continue
+                if ki is not None and ki not in ns.key:
+                    ns.key = ns.key + (ki,)
+                outs.append((ns, int_const(1 if truth else 0, w, False)))
+            if outs:
+                return outs
         return [(st, eng.bool_to_int(st, args[0], w))]
     return None
 
